@@ -100,6 +100,40 @@ F('add_term_data_char', r'constexpr\s+void\s+add_term_data_to_dfa\(char c,\s*dfa
 F('add_term_data_string', r'constexpr\s+void\s+add_term_data_to_dfa\(const char \(&str\)\[DataSize\],\s*dfa_builder<N>& b,\s*size16_t idx\)', 'void add_term_data_string(const char* str, size_t DataSize, size16_t idx)', rules=ATD)
 
 
+# dfa_builder::merge itself: recursive; proved by induction on the call depth (--enforce-contract-rec).  The two references into sm
+# (s_from, s_to) and the two references into their transition rows (tr_from, tr_to) are written back as the indexed expressions
+# they are bound to (sm never reallocates: cvector) -- pointers into an array of structs are what CBMC 6.11 mis-simplifies (DESIGN.md 0.4)
+MERGE_RULES = [S(r'dfa_state_n& s_from = sm\[from\];', '(void)vx_idx(from, b_sm.current_size);', name='R5:s_from bound to sm[from]'),
+               S(r'dfa_state_n& s_to = sm\[to\];', '(void)vx_idx(to, b_sm.current_size);', name='R5:s_to bound to sm[to]'),
+               S(r'size16_t& tr_from = s_from\.transitions\[i\];', '', name='R5:tr_from bound to s_from.transitions[i]'),
+               S(r'size16_t& tr_to = s_to\.transitions\[i\];', '', name='R5:tr_to bound to s_to.transitions[i]'),
+               S(r'auto& cr = s_from\.conflicted_recognition;', '', name='R5:cr bound to s_from.conflicted_recognition'),
+               S(r'\bcr\[j\]', 'b_sm.the_data[from].conflicted_recognition[j]', name='R5:cr[j]'),
+               S(r'\btr_from\b', 'b_sm.the_data[from].transitions[i]', min=3, name='R5:tr_from'), S(r'\btr_to\b', 'b_sm.the_data[to].transitions[i]', min=4, name='R5:tr_to'),
+               S(r'\bs_to\.merged_from\.test\(from\)', 'VX_MF_TEST(b_sm.the_data[to].merged_from, from)', name='R4:cbitset.test'),
+               S(r'\bs_to\.merged_from\.set\(from\)', 'VX_MF_SET(b_sm.the_data[to].merged_from, from)', name='R4:cbitset.set'),
+               S(r'mark_end_state\(s_to, term_idx\)', 'db_mark_end_state(&b_sm.the_data[to], term_idx)', name='R5:ref-arg'),
+               S(r'\bs_from\.', 'b_sm.the_data[from].', min=3, name='R5:s_from'), S(r'\bs_to\.', 'b_sm.the_data[to].', min=3, name='R5:s_to'),
+               S(r'(?<![\w.])merge\(', 'db_merge(', name='R4:recursive call'),
+               S(r'(?<![\w.>])sm\[([^;]*?)\]\.unreachable', r'b_sm.the_data[vx_idx(\1, b_sm.current_size)].unreachable', name='R4:sm[i]'),
+               S(r'\btransitions_size\b', '256', name='R9:transitions_size')]
+F('db_merge', r'constexpr\s+void\s+merge\(size_t to,\s*size_t from,\s*bool keep_end_state = false,\s*bool mark_from_as_unreachable = false\)',
+  'void db_merge(size_t to, size_t from, bool keep_end_state, bool mark_from_as_unreachable)', scope=DB, rules=MERGE_RULES)
+
+
+def rep_shift_fragment(body):
+    """the innermost loop of dfa_builder::rep: every transition of the copied state is shifted into the copy"""
+    import re as _re
+    ms = _re.findall(r'for \(auto& t : st\.transitions\)\s*\{[^{}]*\}', body)
+    if len(ms) != 1:
+        raise Exception('dfa_builder::rep: the transition-shifting loop was not found exactly once')
+    return '{' + ms[0] + '}'
+
+
+F('vx_rep_shift', r'constexpr\s+slice\s+rep\(slice s,\s*size32_t n\)', 'void vx_rep_shift(struct dfa_state* st, struct utils__slice s, size_t i)', scope=DB, fragment=rep_shift_fragment,
+  rules=[RangeFor([(r'st\.transitions', '256', 'st->transitions[{i}]', 'size16_t', True)])])
+
+
 def merge_rec_fragment(body):
     import re as _re
     ms = _re.findall(r'(?<![\w.])merge\(tr_to,\s*tr_from,\s*([^,()]+),\s*([^,()]+)\);', body)
